@@ -95,12 +95,29 @@ class Monitors:
         self.unknown_rng = random.Random(0)
         self.injected = 0
         self.path_checks = 0
+        self.steps = 0
+        self.step_budget = 0
 
 
 MON = Monitors()
 _orig_exec_check = Exec.check
 _orig_path_check = Path.check
 _orig_path_append = Path.append
+_orig_advance = Exec.advance
+
+
+class StepBudgetExceeded(Exception):
+    """the symbolic run executed more instructions than the harness budget (case is dropped)"""
+
+
+def _advance(self, pc=None):
+    MON.steps += 1
+    if MON.step_budget and MON.steps > MON.step_budget:
+        raise StepBudgetExceeded()
+    return _orig_advance(self, pc)
+
+
+Exec.advance = _advance
 
 
 def _site():
@@ -121,6 +138,9 @@ def _site():
 
 
 def _exec_check(self, cond):
+    MON.steps += 25  # a solver-backed check is charged like 25 instructions against the run budget
+    if MON.step_budget and MON.steps > MON.step_budget:
+        raise StepBudgetExceeded()
     r = _orig_exec_check(self, cond)
     if MON.check_log is not None:
         try:
@@ -169,6 +189,7 @@ class SymRun:
         self.injected = 0
         self.crash = None
         self.nsteps = 0
+        self.budget_exceeded = False
 
 
 def make_args(**overrides):
@@ -234,6 +255,7 @@ def run_symbolic(
     second_tx=None,
     sig="t()",
     static=False,
+    step_budget=150_000,
 ):
     """contracts: {addr:int -> bytes|ByteVec}.  concrete: optional dict with keys cd (list of ints),
     caller, origin, value -> runs with these *concrete* inputs instead of symbols.
@@ -277,6 +299,8 @@ def run_symbolic(
     MON.unknown_p = unknown_p
     MON.unknown_rng = random.Random(unknown_seed)
     MON.injected = 0
+    MON.steps = 0
+    MON.step_budget = step_budget
 
     def record(e, sevm_obj):
         o = e.context.output
@@ -331,6 +355,9 @@ def run_symbolic(
             if len(res.paths) > max_paths:
                 res.crash = "too many paths"
                 break
+    except StepBudgetExceeded:
+        res.budget_exceeded = True
+        res.paths = []
     except Exception as exn:  # internal exception escaping SEVM.run
         import traceback
 
